@@ -5,6 +5,8 @@ import (
 	"encoding/json"
 	"fmt"
 	"github.com/indexsupply/shovel/shovel/web"
+	"io"
+	"net/http"
 	"net/http/httptest"
 	"sort"
 	"strings"
@@ -242,6 +244,99 @@ func runC20(e *core.Env) error {
 	{
 		verdict, _ := managerScenarioOpts(ctx, r.Fork(), 900, true)
 		e.Add(core.Case{Impl: verdict, Spec: "ok", Class: "C20.reload_error", Key: "mgr-reload-error", Nontrivial: true, Tags: []string{"manager-reload-error"}})
+	}
+	return c20Binary(e)
+}
+
+// c20Binary: the REAL shovel process with its dashboard. An integration is submitted to
+// POST /save-integration of the running program; when the answer is "ok" a task for it exists and
+// indexes, and the integration from the file keeps running. The same after the process is started again.
+func c20Binary(e *core.Env) error {
+	defer removeShovelBinary()
+	r := e.Rand
+	for rep := 0; rep < e.N(1, 3) && !e.OverBudget(); rep++ {
+		rr := r.Fork()
+		chain := transferChain(5+rr.Intn(3), uint64(1+rr.Intn(1000)))
+		w, err := newWorld(e, chain)
+		if err != nil {
+			return err
+		}
+		fileIG := transferIG("file_ig", "t1", []string{"block_time"}, nil)
+		dashIG := approvalIG("dash_ig", "t2", []string{"block_time"}, nil)
+		doc := func(pgurl string) string {
+			return fmt.Sprintf(`{"pg_url": %q, "dashboard": {"root_password": "x"}, "eth_sources": [{"name": "src1", "chain_id": 7, "url": %q, "poll_duration": "40ms", "batch_size": 2}], "integrations": [%s]}`,
+				pgurl, w.node.URL(), igFileDoc(fileIG, "src1", 1))
+		}
+		root := config.Root{Integrations: []config.Integration{fileIG, dashIG}}
+		if err := config.ValidateFix(&root); err != nil {
+			w.close()
+			return err
+		}
+		tFile, tDash := viewTask(root.Integrations[0], 1, 2, 1), viewTask(root.Integrations[1], 1, 2, 1)
+		// the dashboard does not create tables: the user does (here: the harness, with the real Migrate)
+		if conn, err := w.pool.Acquire(w.ctx); err == nil {
+			config.Migrate(w.ctx, conn, config.Root{Integrations: root.Integrations[1:]})
+			conn.Release()
+		}
+		verdict := "ok"
+		var oracles []string
+		reached := func(ts ...*wTask) bool {
+			deadline := time.Now().Add(20 * time.Second)
+			for time.Now().Before(deadline) {
+				ok := true
+				for _, t := range ts {
+					if _, top, has, _ := w.taskRows(t); !has || top != w.head() {
+						ok = false
+					}
+				}
+				if ok {
+					time.Sleep(100 * time.Millisecond)
+					return true
+				}
+				time.Sleep(30 * time.Millisecond)
+			}
+			return false
+		}
+		p, err := startShovelOn(e, w.url, doc)
+		if err != nil {
+			e.Add(core.Case{Impl: "the shovel binary did not start: " + err.Error(), Spec: "started", Key: fmt.Sprintf("c20-bin-start %d", rep), Tags: []string{"binary"}})
+			w.close()
+			continue
+		}
+		if !reached(tFile) {
+			verdict = "the integration of the configuration file never reached the head"
+		}
+		resp, err := http.Post(fmt.Sprintf("http://127.0.0.1:%d/save-integration", p.port), "application/json", strings.NewReader(igFileDoc(root.Integrations[1], "src1", 1))) // (the complete declaration, identity fields spelled out: what is stored is what runs)
+		switch {
+		case err != nil:
+			verdict = "POST /save-integration: " + err.Error()
+		default:
+			b, _ := io.ReadAll(resp.Body)
+			resp.Body.Close()
+			if resp.StatusCode != 200 && verdict == "ok" {
+				verdict = fmt.Sprintf("POST /save-integration answered %d %s", resp.StatusCode, trunc2(string(b)))
+			}
+		}
+		w.grow(2)
+		if verdict == "ok" && !reached(tFile, tDash) {
+			_, topF, _, _ := w.taskRows(tFile)
+			_, topD, hasD, _ := w.taskRows(tDash)
+			verdict = fmt.Sprintf("the dashboard answered ok; 20 s later the head is %d, the file's integration is at %d, the submitted integration at %d (recorded=%v)", w.head(), topF, topD, hasD)
+		}
+		oracles = append(oracles, w.projOracle(tFile, 0), w.projOracle(tDash, 0))
+		p.stop()
+		w.grow(1)
+		if p, err = startShovelOn(e, w.url, doc); err != nil {
+			verdict = "the shovel binary did not start again: " + err.Error()
+		} else {
+			if verdict == "ok" && !reached(tFile, tDash) {
+				verdict = "after a restart of the process the stored integration and the file's integration do not both reach the head"
+			}
+			oracles = append(oracles, w.projOracle(tFile, 0), w.projOracle(tDash, 0))
+			p.stop()
+		}
+		e.Add(core.Case{Impl: verdict, Spec: "ok", Oracles: oracles, Nontrivial: true, Key: fmt.Sprintf("c20-binary %d %d", rep, e.Seed), Tags: []string{"binary", "stored-through-the-running-dashboard"}})
+		w.close()
 	}
 	return nil
 }
